@@ -971,7 +971,7 @@ class Data(object):
         try: #see if super class already has attribute so don't shadow
             super(Data,self).__getattribute__(key)
         except AttributeError: #super doesn't have it so put in dictionary
-            if (key in self.__dict__) or REO_IdentPub.match(key): #don't do check if already there
+            if (key in self.__dict__) or REO_IdentPub.fullmatch(key): #don't do check if already there
                 self.__dict__.__setitem__(key,value)
             else:
                 raise AttributeError("Invalid attribute name '%s'" % key)
